@@ -280,7 +280,7 @@ def split_segments(events):
     return whole
 
 
-def validate_segments(ctx, module, cfg, segs, max_unknown=6, env=None, deque=False, timeout=900, batch=None):
+def validate_segments(ctx, module, cfg, segs, max_unknown=6, env=None, deque=False, timeout=900, batch=None, max_events=None):
     """TLC-validate segments against the trace spec. Returns the list of rejected segments as
     (segment, index_of_first_unexplained_event, tlc_output).  Accepted segments count as
     traces_validated_against_impl."""
@@ -289,6 +289,18 @@ def validate_segments(ctx, module, cfg, segs, max_unknown=6, env=None, deque=Fal
     if not todo:
         return failures
     chunks = [todo] if not batch else [todo[i:i + batch] for i in range(0, len(todo), batch)]
+    if max_events:
+        # (trace constants such as the set of request IDs are taken from the whole file: the cost of a step grows
+        # with the file, so long recordings are validated in pieces of whole segments)
+        chunks, cur_chunk, n = [], [], 0
+        for sg in todo:
+            if cur_chunk and n + len(sg) > max_events:
+                chunks.append(cur_chunk)
+                cur_chunk, n = [], 0
+            cur_chunk.append(sg)
+            n += len(sg)
+        if cur_chunk:
+            chunks.append(cur_chunk)
     for chunk in chunks:
         cur = list(chunk)
         while cur:
